@@ -53,9 +53,12 @@ def producer_partition(tier, seed):
         for trial in range(2 if tier == "quick" else 6):
             ids = list(range(n))
             rnd.shuffle(ids)
-            parts = [(0, p, (-1 if rnd.random() < 0.2 else 1), [1], [1]) for p in ids]
+            # broker ids start at 0 in most clusters: leaders are drawn from the nodes 0, 1, 2 (trial 0: every leader is node 0)
+            leaders = {p: (-1 if rnd.random() < 0.2 else (0 if trial == 0 else rnd.choice([0, 1, 2]))) for p in ids}
+            parts = [(0, p, leaders[p], [0, 1, 2], [0, 1, 2]) for p in ids]
             cluster = ClusterMetadata()
-            cluster.update_metadata(MetadataResponse_v1([(1, "h", 9092, None)], 1, [(0, "t", False, parts)]))
+            cluster.update_metadata(MetadataResponse_v1([(0, "h0", 9092, None), (1, "h1", 9092, None), (2, "h2", 9092, None)], 1,
+                                                        [(0, "t", False, parts)]))
 
             class P:
                 pass
@@ -68,6 +71,16 @@ def producer_partition(tier, seed):
                 want = java_partition(key, n)
                 if got != want:
                     fails.append({"key": key.hex(), "partitions": n, "listed_in_metadata_as": ids[:12], "got": got, "java": want})
+                    if len(fails) >= 10:
+                        return cases, fails
+            # "An unkeyed record goes to an available partition whenever at least one is available" (available: has a leader)
+            led = {p for p in ids if leaders[p] != -1}
+            for _ in range(20):
+                cases += 1
+                got = AIOKafkaProducer._partition(prod, "t", None, None, b"v", None, b"v")
+                if (led and got not in led) or got not in leaders:
+                    fails.append({"key": None, "partitions": n, "leaders": dict(list(leaders.items())[:12]), "got": got,
+                                  "partitions_with_a_leader": sorted(led)[:12]})
                     if len(fails) >= 10:
                         return cases, fails
     return cases, fails
@@ -89,8 +102,9 @@ def main():
     n, fails = producer_partition(a.tier, a.seed)
     emit({"name": "producer-partition-for-shuffled-metadata", "exhaustive": False, "cases": n, "distinct_nontrivial": n,
           "bound": "the real AIOKafkaProducer._partition over a real ClusterMetadata: 1..1000 partitions listed by the broker in "
-                   "shuffled order, a fifth of them without a leader, keys of length 0..2 over {00,7f,80,ff} plus seeded random "
-                   "keys; compared with the Java client's hash %% n; seed %d" % a.seed,
+                   "shuffled order, a fifth of them without a leader, the others led by nodes 0..2 (every leader node 0 in one trial); "
+                   "keys of length 0..2 over {00,7f,80,ff} plus seeded random keys compared with the Java client's hash %% n, and "
+                   "20 unkeyed sends per layout which must land on a partition that has a leader; seed %d" % a.seed,
           "failures": fails, "replay": {"script": REPLAY_PRODUCER % a.seed}})
 
 
@@ -99,7 +113,7 @@ import sys
 sys.path.insert(0, "/verif")
 from bounded import C17
 n, fails = C17.producer_partition("quick", %d)
-VIOLATED = bool(fails); DETAIL = "%%d of %%d keyed sends differ from the Java client's partition; first: %%r" %% (len(fails), n, fails[:1])
+VIOLATED = bool(fails); DETAIL = "%%d of %%d sends went to the wrong partition (keyed: hash mod n of the Java client; unkeyed: a partition with a leader); first: %%r" %% (len(fails), n, fails[:1])
 '''
 
 
